@@ -80,6 +80,9 @@ def write_summary():
             continue
         ded = res.get('deductive_obligations_open') or []
         bnd = res.get('bounded_clauses_violated') or []
+        # a refuted obligation whose counter-model was replayed on the real code is printed under its own REPLAYED- key
+        ded = ded + [k for k in bnd if '/REPLAYED-' in k]
+        bnd = [k for k in bnd if '/REPLAYED-' not in k]
         tier = ('deductive + bounded' if ded and bnd else 'deductive' if ded else 'bounded' if bnd else '-')
         rows.append('| %s | %s | %s | %s | %s | %s |' % (sid, str(meta.get('summary', ''))[:140].replace('|', '/'), conf.get('confirmed'), res.get('detected'), tier,
                                                     ('; '.join((ded[:2] + bnd[:2])))[:220].replace('|', '/')))
